@@ -24,20 +24,30 @@ package header
 //@ pure
 //@ ensures result >= 0
 
-// L18.1 / L18.2: a Via chain that already contains this instance's element is
-// refused with status 400, the connection is marked for closing and the
-// header is left alone; otherwise exactly one element - protocol version and
-// tag - is appended after the existing chain.
+// L18.1 / L18.2: the Via chain is everything on every Via field line (joined;
+// lastJoin() names the joined text). A chain that already contains this
+// instance's element - on whichever line - is refused with status 400, the
+// connection is marked for closing and the header is left alone; otherwise
+// exactly one element - protocol version and tag - is appended after the
+// whole existing chain: no element of any line is lost (C01).
+//@ pred viaLoop(m *ViaModifier) = lastJoin() != "" && contains(lastJoin(), m.tag)
 //@ func (*ViaModifier).ModifyRequest
 //@ property C18 C01
 //@ requires m != nil && req != nil && req.Header != nil
-//@ modifies req.Close, req.Header[*], sbStr, elems(any), elems(string), elems(byte), pkg(bytes)
-//@ ensures old(firstVal(req.Header, "Via")) != "" && contains(old(firstVal(req.Header, "Via")), m.tag) ==> result != nil && result is martian.ErrorStatus && result.(martian.ErrorStatus).Status == 400 && req.Close
-//@ ensures old(firstVal(req.Header, "Via")) != "" && contains(old(firstVal(req.Header, "Via")), m.tag) ==> forall k string :: (k in req.Header) == old(k in req.Header) && req.Header[k] == old(req.Header[k])
-//@ ensures !(old(firstVal(req.Header, "Via")) != "" && contains(old(firstVal(req.Header, "Via")), m.tag)) ==> result == nil && req.Close == old(req.Close) && ("Via" in req.Header) && len(req.Header["Via"]) == 1
-//@ ensures !(old(firstVal(req.Header, "Via")) != "" && contains(old(firstVal(req.Header, "Via")), m.tag)) ==> forall k string :: k != "Via" ==> (k in req.Header) == old(k in req.Header) && req.Header[k] == old(req.Header[k])
-//@ ensures result == nil && old(firstVal(req.Header, "Via")) == "" && (req.ProtoMajor*10 + req.ProtoMinor == 20 || req.ProtoMajor*10 + req.ProtoMinor == 11 || req.ProtoMajor*10 + req.ProtoMinor == 10) ==> req.Header["Via"][0] == viaProto(req.ProtoMajor, req.ProtoMinor) + " " + m.tag
-//@ ensures result == nil && old(firstVal(req.Header, "Via")) != "" && (req.ProtoMajor*10 + req.ProtoMinor == 20 || req.ProtoMajor*10 + req.ProtoMinor == 11 || req.ProtoMajor*10 + req.ProtoMinor == 10) ==> req.Header["Via"][0] == old(firstVal(req.Header, "Via")) + ", " + viaProto(req.ProtoMajor, req.ProtoMinor) + " " + m.tag
+//@ modifies req.Close, req.Header[*], sbStr, elems(any), elems(string), elems(byte), pkg(bytes), lastJoin()
+// (what the joined chain is)
+//@ ensures !old("Via" in req.Header) ==> lastJoin() == ""
+//@ ensures old("Via" in req.Header) && old(len(req.Header["Via"])) == 1 ==> lastJoin() == old(req.Header["Via"][0])
+//@ ensures forall i int {old(req.Header["Via"][i])} :: old("Via" in req.Header) && 0 <= i && i < old(len(req.Header["Via"])) ==> contains(lastJoin(), old(req.Header["Via"][i]))
+// (loop: the tag anywhere in the chain)
+//@ ensures forall i int {old(req.Header["Via"][i])} :: old("Via" in req.Header) && 0 <= i && i < old(len(req.Header["Via"])) && contains(old(req.Header["Via"][i]), m.tag) && lastJoin() != "" ==> result != nil
+//@ ensures viaLoop(m) ==> result != nil && result is martian.ErrorStatus && result.(martian.ErrorStatus).Status == 400 && req.Close
+//@ ensures viaLoop(m) ==> forall k string :: (k in req.Header) == old(k in req.Header) && req.Header[k] == old(req.Header[k])
+// (no loop: one element appended after the whole chain)
+//@ ensures !viaLoop(m) ==> result == nil && req.Close == old(req.Close) && ("Via" in req.Header) && len(req.Header["Via"]) == 1
+//@ ensures !viaLoop(m) ==> forall k string :: k != "Via" ==> (k in req.Header) == old(k in req.Header) && req.Header[k] == old(req.Header[k])
+//@ ensures result == nil && lastJoin() == "" && (req.ProtoMajor*10 + req.ProtoMinor == 20 || req.ProtoMajor*10 + req.ProtoMinor == 11 || req.ProtoMajor*10 + req.ProtoMinor == 10) ==> req.Header["Via"][0] == viaProto(req.ProtoMajor, req.ProtoMinor) + " " + m.tag
+//@ ensures result == nil && lastJoin() != "" && (req.ProtoMajor*10 + req.ProtoMinor == 20 || req.ProtoMajor*10 + req.ProtoMinor == 11 || req.ProtoMajor*10 + req.ProtoMinor == 10) ==> req.Header["Via"][0] == lastJoin() + ", " + viaProto(req.ProtoMajor, req.ProtoMinor) + " " + m.tag
 
 // ---- hop-by-hop removal (C06 L6.1, C01, C02 L2.6) ----
 
@@ -131,7 +141,7 @@ package header
 //@ func NewForwardedModifier$1
 //@ property C01
 //@ requires req != nil && req.Header != nil && req.URL != nil
-//@ modifies req.Header[*], elems(string)
+//@ modifies req.Header[*], elems(string), lastJoin()
 //@ ensures result == nil
 //@ ensures forall k string :: !isXFwd(k) ==> (k in req.Header) == old(k in req.Header) && req.Header[k] == old(req.Header[k])
 //@ ensures req.Method == "CONNECT" ==> forall k string :: (k in req.Header) == old(k in req.Header) && req.Header[k] == old(req.Header[k])
@@ -141,8 +151,14 @@ package header
 //@ ensures req.Method != "CONNECT" && old(hget(req.Header, "X-Forwarded-Proto")) == "" ==> hget(req.Header, "X-Forwarded-Proto") == req.URL.Scheme
 //@ ensures req.Method != "CONNECT" && old(hget(req.Header, "X-Forwarded-Host")) == "" ==> hget(req.Header, "X-Forwarded-Host") == req.Host
 //@ ensures req.Method != "CONNECT" ==> len(req.Header["X-Forwarded-For"]) == 1
-//@ ensures req.Method != "CONNECT" && old(hget(req.Header, "X-Forwarded-For")) == "" ==> hget(req.Header, "X-Forwarded-For") == ite(splitOK(req.RemoteAddr), splitHost(req.RemoteAddr), req.RemoteAddr)
-//@ ensures req.Method != "CONNECT" && old(hget(req.Header, "X-Forwarded-For")) != "" ==> hget(req.Header, "X-Forwarded-For") == old(hget(req.Header, "X-Forwarded-For")) + ", " + ite(splitOK(req.RemoteAddr), splitHost(req.RemoteAddr), req.RemoteAddr)
+// (the X-Forwarded-For list is everything on every X-Forwarded-For line, joined -
+// lastJoin(); the client address is appended after the whole list: no entry of
+// any line is lost)
+//@ ensures req.Method != "CONNECT" && !old("X-Forwarded-For" in req.Header) ==> lastJoin() == ""
+//@ ensures req.Method != "CONNECT" && old("X-Forwarded-For" in req.Header) && old(len(req.Header["X-Forwarded-For"])) == 1 ==> lastJoin() == old(req.Header["X-Forwarded-For"][0])
+//@ ensures req.Method != "CONNECT" ==> forall i int {old(req.Header["X-Forwarded-For"][i])} :: old("X-Forwarded-For" in req.Header) && 0 <= i && i < old(len(req.Header["X-Forwarded-For"])) ==> contains(lastJoin(), old(req.Header["X-Forwarded-For"][i]))
+//@ ensures req.Method != "CONNECT" && lastJoin() == "" ==> hget(req.Header, "X-Forwarded-For") == ite(splitOK(req.RemoteAddr), splitHost(req.RemoteAddr), req.RemoteAddr)
+//@ ensures req.Method != "CONNECT" && lastJoin() != "" ==> hget(req.Header, "X-Forwarded-For") == lastJoin() + ", " + ite(splitOK(req.RemoteAddr), splitHost(req.RemoteAddr), req.RemoteAddr)
 
 //@ func NewBadFramingModifier
 //@ trusted
